@@ -14,6 +14,13 @@ func (b *Bounds) Extend(b2 *Bounds) {
 	if b2 == nil || b2.Empty() {
 		return
 	}
+	if b.Empty() {
+		// Nothing in b to keep. (For a box made by NewBounds the minima and
+		// maxima below give the same result; for any other empty box - Min
+		// beyond Max - they would mix its corners into the result.)
+		b.Min, b.Max = b2.Min, b2.Max
+		return
+	}
 	b.extendPoint(b2.Min)
 	b.extendPoint(b2.Max)
 }
